@@ -793,6 +793,10 @@ CORPUS = [
     ('remove foo bar', [('F', 6, 'SHUTDOWN_STATE'), ('F', 6, 'SHUTDOWN_STATE')]),
     ('remove foo bar', [('F', 6, 'SHUTDOWN_STATE'), ('V',)]),
     ('add foo bar', [('F', 6, 'SHUTDOWN_STATE'), ('F', 6, 'SHUTDOWN_STATE')]),
+    # F50 (open): addProcessGroup answers FAILED when the group cannot be created (F48/F49); do_add re-raises it and never
+    # asks about the names after it
+    ('add foo bar', [('F', 30, 'FAILED: foo: cannot bind'), ('V',)]),
+    ('add foo', [('F', 30, 'FAILED: foo: cannot bind')]),
     # F46 (fixed 7613253): pid when the daemon began to shut down after the upcheck: do_pid re-raised SHUTDOWN_STATE
     ('pid foo bar', [V, ('F', 6, 'SHUTDOWN_STATE'), ('Q', ('bar', 'bar', 20, 'RUNNING', 'd', 7))]),
     ('pid foo bar', [V, ('F', 6, 'SHUTDOWN_STATE'), ('F', 6, 'SHUTDOWN_STATE')]),
@@ -991,7 +995,12 @@ _W_ADDED = {'procs': [['foo', 'foo', 20, 101, {}, {'stdout': 'x\n', 'stderr': No
 _W_F47 = {'procs': [['a', 'a', 40, 5, {}, {'stdout': None, 'stderr': None}], ['b', 'b', 20, 6, {}, {'stdout': None, 'stderr': None}],
                     ['c', 'c', 20, 7, {}, {'stdout': None, 'stderr': None}]],
           'config': {'c': ['c']}, 'changed': [], 'shutting': False, 'mainlog': 'm\n'}
+# F50 (open): the configured group `sock` cannot be created
+_W_F50 = {'procs': [['foo', 'foo', 20, 101, {}, {'stdout': 'x\n', 'stderr': None}]],
+          'config': {'foo': ['foo'], 'sock': ['sock'], 'new': ['new']}, 'changed': [], 'shutting': False, 'mainlog': 'm\n',
+          'uncreatable': ['sock']}
 WORLD_CORPUS = [
+    ('add sock new', _W_F50), ('add new sock', _W_F50), ('add sock', _W_F50), ('update new', _W_F50),
     ('update', _W_F47), ('update b', _W_F47), ('update a typo', _W_F47),
     ('update typo', _W_ADDED), ('update added', _W_ADDED),
     ('update typo', _W_ONE), ('update foo typo', _W_ONE), ('update typo foo', _W_ONE), ('update foo', _W_ONE),
